@@ -21,6 +21,7 @@ from photon_weave._math.ops import (
     kraus_identity_check,
     num_quanta_matrix,
     num_quanta_vector,
+    reduced_state_from_vector,
 )
 from photon_weave.constants import C0, gaussian
 from photon_weave.photon_weave import Config
@@ -1019,33 +1020,17 @@ class Envelope:
         if self.expansion_level == ExpansionLevel.Vector:
             assert isinstance(self.state, jnp.ndarray)
             assert self.state.shape == (self.dimensions, 1)
-            reshape_shape.append(1)
+            if len(states) == 2:
+                # Nothing is traced out, the state is already in the given order
+                return self.state
+
+            # Amplitudes as a matrix [kept, traced out]
             ps = self.state.reshape(reshape_shape)
+            if state_order[0] is not states[0]:
+                ps = ps.T
 
-            # Construct Einsum string
-            c1 = itertools.count(start=0)
-            einsum_list_list: List[List[int]] = [[], []]
-            einsum_to = next(c1)
-
-            for s in state_order:
-                if s not in states:
-                    c = einsum_to
-                else:
-                    c = next(c1)
-                einsum_list_list[0].append(c)
-                if s in states:
-                    einsum_list_list[1].append(c)
-            c = next(c1)
-            einsum_list_list[0].append(c)
-            einsum_list_list[1].append(c)
-            einsum_list_str = [
-                "".join([chr(97 + x) for x in s]) for s in einsum_list_list
-            ]
-            einsum = f"{einsum_list_str[0]}->{einsum_list_str[1]}"
-            ps = jnp.einsum(einsum, ps)
-
-            dim = int(jnp.prod(jnp.array([s.dimensions for s in states])))
-            return ps.reshape(dim, 1)
+            # The reduced state is a vector only if it is pure
+            return reduced_state_from_vector(ps)
 
         if self.expansion_level == ExpansionLevel.Matrix:
             assert isinstance(self.state, jnp.ndarray)
